@@ -65,6 +65,21 @@ func (h *H) envSize() int {
 }
 
 func (h *H) annotations() map[string]string {
+	if h.share && h.sharedAnn != nil && h.rng.Chance(1, 2) {
+		// the SAME map object as in the previous push, sometimes edited in place by the caller
+		if h.rng.Bool() {
+			h.sharedAnn["user.key"] = fmt.Sprintf("%x", h.rng.U64()&0xff)
+		}
+		return h.sharedAnn
+	}
+	a := h.freshAnnotations()
+	if h.share && a != nil {
+		h.sharedAnn = a
+	}
+	return a
+}
+
+func (h *H) freshAnnotations() map[string]string {
 	r := h.rng.Intn(100)
 	thumb := `["` + fmt.Sprintf("%x", h.rng.U64()) + `"]`
 	switch {
@@ -112,6 +127,13 @@ func (h *H) variant(d ocispec.Descriptor, k int) ocispec.Descriptor {
 
 // decorate adds fields content.Equal ignores.
 func (h *H) decorate(d ocispec.Descriptor) ocispec.Descriptor {
+	if h.share {
+		// the SAME decorated descriptor object (its map and pointer) for every call about this artifact
+		if c, ok := h.sharedDesc[qkey(d)]; ok {
+			return c
+		}
+		defer func() { h.sharedDesc[qkey(ocispec.Descriptor{MediaType: d.MediaType, Digest: d.Digest, Size: d.Size})] = d }()
+	}
 	switch h.rng.Intn(6) {
 	case 0:
 		d.Annotations = map[string]string{"note": "x"}
